@@ -14,7 +14,7 @@ What C07 demands : value(e) of a non-signal expression equals e at the values of
               MultipleShooting.
 """
 import sys
-sys.path.insert(0, '/tmp/nx_pydeps')   # networkx (pure python copy) for SplineMethod
+sys.path.insert(0, '/verif/pydeps')   # networkx (pure python copy) for SplineMethod
 import numpy as np
 from rockit import Ocp, SplineMethod, MultipleShooting
 
